@@ -289,6 +289,7 @@ func checkC10(c *Ctx) {
 	c10Params(c)
 	// "complete": the frame reaches the wire byte for byte
 	c09FormatStrings(c, "R-frame-verbatim")
+	c10HandlerErrorContained(c, "R-handler-error-contained")
 }
 
 func c10Client(c *Ctx) {
@@ -494,4 +495,103 @@ func c10StreamingType(c *Ctx, T types.Type) bool {
 		})
 	}
 	return streaming
+}
+
+// ---------------------------------------------------------------- R-handler-error-contained
+// What a client-side notification handler returns must not decide how the call ends: the call's outcome is the
+// server's answer. The error of a user NotificationHandler may be logged, but it must not flow (directly, wrapped by
+// fmt.Errorf, or through the result of a helper) into the result of a function on the call's answer path (one that
+// returns the answer, *json.RawMessage).
+func c10HandlerErrorContained(c *Ctx, rule string) {
+	nhT := c.P.RootNamed("NotificationHandler")
+	if nhT == nil {
+		return
+	}
+	// functions one of whose error results derives from a handler's error
+	tainted := map[*ssa.Function]bool{}
+	derives := func(fn *ssa.Function, v ssa.Value) bool {
+		seen := map[ssa.Value]bool{}
+		var visit func(v ssa.Value, d int) bool
+		visit = func(v ssa.Value, d int) bool {
+			if v == nil || d > 6 || seen[v] {
+				return false
+			}
+			seen[v] = true
+			switch x := v.(type) {
+			case *ssa.Call:
+				if !x.Call.IsInvoke() && types.Identical(x.Call.Value.Type(), nhT) {
+					return true
+				}
+				if sc := ir.StaticCallee(x); sc != nil && tainted[sc] {
+					return true
+				}
+				n := ir.CallName(x)
+				if n == "fmt.Errorf" || n == "errors.Join" {
+					for _, a := range x.Call.Args {
+						for _, e := range variadicElems(a) {
+							if e != nil && visit(ir.Unwrap(e), d+1) {
+								return true
+							}
+						}
+					}
+				}
+			case *ssa.Extract:
+				return visit(x.Tuple, d+1)
+			case *ssa.Phi:
+				for _, e := range x.Edges {
+					if visit(e, d+1) {
+						return true
+					}
+				}
+			case *ssa.MakeInterface:
+				return visit(x.X, d+1)
+			case *ssa.ChangeInterface:
+				return visit(x.X, d+1)
+			}
+			return false
+		}
+		return visit(v, 0)
+	}
+	for iter := 0; iter < 4; iter++ {
+		changed := false
+		for _, fn := range c.P.LibFns {
+			if tainted[fn] || !clientSide(c, fn) {
+				continue
+			}
+			ir.EachInstr(fn, func(blk *ssa.BasicBlock, _ int, in ssa.Instruction) {
+				r, ok := in.(*ssa.Return)
+				if !ok || blk == fn.Recover {
+					return
+				}
+				for _, rv := range ir.Results(r) {
+					if ir.TypeStr(rv.Type()) == "error" && derives(fn, rv) {
+						tainted[fn] = true
+						changed = true
+					}
+				}
+			})
+		}
+		if !changed {
+			break
+		}
+	}
+	n := 0
+	for _, fn := range sortedFuncs(tainted) {
+		res := fn.Signature.Results()
+		onAnswerPath := false
+		for i := 0; i < res.Len(); i++ {
+			if ir.TypeStr(res.At(i).Type()) == "*encoding/json.RawMessage" {
+				onAnswerPath = true
+			}
+		}
+		if !onAnswerPath {
+			continue
+		}
+		n++
+		c.R.Violate(rule, "handler error returned by "+fname(fn), c.Pos(fn.Pos()),
+			sprintf("%s lies on the path that returns a call's answer and returns an error that derives from what a user notification handler returned: a failing (or merely picky) handler makes the call end with the handler's error instead of the server's answer", fname(fn)))
+	}
+	if n == 0 {
+		c.R.Hold(rule, "notification handler errors stay off the answer path", "", sprintf("%d function(s) hand a handler error on; none of them returns a call's answer", len(tainted)))
+	}
 }
